@@ -24,7 +24,7 @@ ENV = dict(os.environ, GOFLAGS="-mod=mod", GOPROXY="off", GOSUMDB="off", GOTOOLC
 
 def load_cases():
     cases = []
-    for d in sorted(glob.glob(f"{VERIF}/selftest/mutants/*/")) + sorted(glob.glob(f"{VERIF}/seeded/*/")):
+    for d in sorted(glob.glob(f"{VERIF}/selftest/mutants/*/")) + sorted(glob.glob(f"{VERIF}/seeded/*/")) + sorted(glob.glob(f"{VERIF}/selftest/harmless/*/")):
         mp = os.path.join(d, "meta.json")
         pp = os.path.join(d, "patch.diff")
         if not (os.path.exists(mp) and os.path.exists(pp)):
@@ -33,7 +33,7 @@ def load_cases():
         props = m.get("detect_with") or m["property"]
         if isinstance(props, str):
             props = [props]
-        cases.append({"name": os.path.basename(d.rstrip("/")), "kind": "seeded" if "/seeded/" in d else "mutant", "patch": pp,
+        cases.append({"name": os.path.basename(d.rstrip("/")), "kind": "seeded" if "/seeded/" in d else "harmless" if "/harmless/" in d else "mutant", "patch": pp,
                       "props": props, "expect": m.get("expect", "violation"), "obligation": m.get("obligation", "")})
     ct = f"{VERIF}/selftest/canaries/canaries.json"
     if os.path.exists(ct):
@@ -44,6 +44,7 @@ def load_cases():
 
 
 BASELINE = {}
+REPLAY = False
 
 
 def baseline(prop, timeout_ms):
@@ -83,7 +84,7 @@ def run_case(case, claimed, timeout_ms):
             if ap.returncode != 0:
                 return [(case, p, "PATCH-FAILED", ap.stdout + ap.stderr) for p in props]
         for p in props:
-            cmd = [f"{VERIF}/bin/govc", "check", "--property", p, "--repo", repo, "--verif", vdir, "--no-replay"]
+            cmd = [f"{VERIF}/bin/govc", "check", "--property", p, "--repo", repo, "--verif", vdir] + ([] if REPLAY else ["--no-replay"])
             baseline(p, timeout_ms)
             if timeout_ms:
                 cmd += ["--timeout", str(timeout_ms)]
@@ -98,7 +99,12 @@ def run_case(case, claimed, timeout_ms):
             else:
                 ok = r.returncode == 0 and not viol
                 verdict = "pass-ok" if ok else "FALSE-ALARM"
-            res.append((case, p, verdict, ", ".join(failed[:6]) if failed else out[-400:] if not ok else ""))
+            note = ", ".join(failed[:6]) if failed else out[-400:] if not ok else ""
+            if REPLAY and viol:
+                vl = re.findall(r"^VIOLATION property=\S+ replay=\S+(.*)$", r.stdout, flags=re.M)
+                conf = sum(1 for x in vl if "no-failing-input-found" not in x)
+                note = f"[replay-confirmed {conf}/{len(vl)}] " + note
+            res.append((case, p, verdict, note))
     finally:
         shutil.rmtree(scratch, ignore_errors=True)
     return res
@@ -109,6 +115,10 @@ def main():
     a = sys.argv[1:]
     while a:
         x = a.pop(0)
+        if x == "--replay":
+            global REPLAY
+            REPLAY = True
+            continue
         if x == "--only":
             only = a.pop(0)
         elif x == "--jobs":
@@ -120,7 +130,7 @@ def main():
     claimed = {c["property_id"] for c in json.load(open(f"{VERIF}/MANIFEST.json"))["checks"]}
     if propf:
         claimed = set(propf)
-    cases = [c for c in load_cases() if not only or only in c["name"]]
+    cases = [c for c in load_cases() if not only or re.search(only, c["name"])]
     t0 = time.time()
     bad = 0
     rows = []
